@@ -380,7 +380,8 @@ def check_c20(tier):
     samples = []
     evaluations = 0
     dn = 0
-    for mode, n in (("small", n_small), ("wide", n_wide)):
+    n_long = 48 if tier == "quick" else 640
+    for mode, n in (("small", n_small), ("wide", n_wide), ("long", n_long)):
         b = run_batch(binary, "dn-sim", mode, tier, n, vseed)
         evaluations += len(b.runs)
         dn += b.distinct_nontrivial()
@@ -403,7 +404,10 @@ def check_c20(tier):
         "small_alphabet_histories_len_le4_total": 9 + 81 + 729 + 6561,
         "small_alphabet_note": "9 operations (3 types x 2 values pushes, 3 removes); the first four operations of a small-mode "
                                "run are stratified by run index, later ones and everything else are seeded; reach is measured, not assumed",
-        "simulated_time": "rcgen has no clock; logical steps = %d" % sum(b.counters.get("steps", 0) for _, b in covs),
+        "simulated_time": "rcgen has no clock; logical steps = %d" % sum(b.counters.get("steps", 0) + 2 * b.counters.get("churn_rounds", 0) for _, b in covs),
+        "long_histories": {"runs": n_long, "push_remove_rounds_on_one_name_object": sum(b.counters.get("churn_rounds", 0) for _, b in covs),
+                           "note": "each long run performs 70,000-140,000 first-insertions on a single name object, checked after every step"},
+        "near_twin_comparisons(names differing in one letter's case / string kind / trailing space / custom type with the same OID)": sum(b.counters.get("near_twins", 0) for _, b in covs),
         "fault_kinds": {"hash_seed_per_run": evaluations},
         "real_components": ["rcgen (DistinguishedName, certificate/CSR/CRL writers)", "yasna", "time"],
         "simulated_components": ["hash state of the attribute map (hook H1)", "signer (fixed-bytes stub; signature irrelevant here)"],
